@@ -86,6 +86,52 @@ def oracle(ctx, r, stats):
         ctx.violation("depth-positive-but-safepoint-at-0", "a safepoint was counted at depth 0 although the run started and stayed at depth > 0", rep)
 
 
+FILL_CLASS = {0: "ok", 1: "OutOfMemory", 3: "budget", 7: "compile-error", 8: "panic", 9: "other-runtime-error"}
+
+
+def parse_fill(out):
+    rows = []
+    for line in out.splitlines():
+        f = line.split("\t")
+        if f[0] == "FILLFAIL":
+            rows.append({"bad": line})
+        if f[0] != "FILL" or len(f) < 7:
+            continue
+        sp = f[2].split(":")
+        rows.append({"spec": f[2], "template": sp[0], "n": int(sp[1]), "limit": int(sp[4]), "opt": int(sp[5]), "mode": int(sp[6]), "host": int(sp[7]),
+                     "region": f[3] == "1", "region_bytes": int(f[4]), "obs": [int(x) for x in f[5].split()], "src": f[6], "detail": f[7] if len(f) > 7 else ""})
+    return rows
+
+
+def fill_oracle(ctx, r, stats):
+    """programs that allocate inside a region until the configured heap limit is reached: nothing may be reclaimed there"""
+    cls, d0, d1, sp, sp_pos, col, col_pos, h0, h1 = r["obs"]
+    rep = {"fill": r["spec"], "template": r["template"], "max_heap_bytes": r["limit"], "opt": r["opt"], "gc_mode": r["mode"], "host_depth": r["host"],
+           "source": r["src"], "observed": {"class": FILL_CLASS.get(cls, cls), "depth_before": d0, "depth_after": d1, "safepoints": sp,
+                                            "safepoints_depth>0": sp_pos, "collections": col, "collections_depth>0": col_pos,
+                                            "heap_bytes_before": h0, "heap_bytes_after": h1},
+           "bytes_allocated_inside_the_region_at_least": r["region_bytes"], "detail": r["detail"],
+           "replay_cmd": f"hx_nogc --fill-cases {r['spec']}"}
+    k = "fill:" + FILL_CLASS.get(cls, str(cls)) + (":region" if r["region"] else ":control")
+    stats[k] = stats.get(k, 0) + 1
+    # every collection is counted by the hook inside VM::collect itself, with the depth at which it ran -- also one that did
+    # not come through maybe_collect
+    if col_pos != 0:
+        ctx.violation("collect-at-positive-depth", f"{col_pos} collection(s) ran while no_gc_depth > 0 ({r['template']}, max heap {r['limit']}, -O{r['opt']})", rep)
+    if d1 != d0:
+        ctx.violation("depth-not-restored-after-error" if cls != 0 else "depth-unbalanced-on-ok-run",
+                      f"no_gc_depth {d0} -> {d1} ({FILL_CLASS.get(cls, cls)}) in a heap-filling region", rep)
+    if cls in (8, 9, 3, 7):
+        ctx.violation("fill-unexpected-outcome", f"{FILL_CLASS[cls]} in a heap-filling program: {r['detail'][:120]}", rep)
+        return
+    # inside the region nothing is reclaimed: a region that allocates more than twice the limit cannot complete
+    if r["region"] and cls == 0 and r["region_bytes"] >= 2 * r["limit"]:
+        ctx.violation("region-outlived-heap-limit", f"the region allocated at least {r['region_bytes']} bytes under a limit of {r['limit']} and completed: "
+                      "something was reclaimed while no_gc_depth > 0", rep)
+    if r["region"] and cls == 1 and sp_pos > 0:
+        stats["fill:oom-after-region-safepoints"] = stats.get("fill:oom-after-region-safepoints", 0) + 1
+
+
 FEATURES = ["fn:@no_gc", "fn:normal", "fn:nested", "fn:lambda", "fn:captures", "fn:leaf-return", "fn:leaf-trailing-value", "fn:empty-body",
             "deco:@inline+@no_gc", "deco:@inline_always+@no_gc", "deco:@no_gc+@inline", "deco:@no_gc+@inline_always",
             "stmt:for", "stmt:while", "stmt:break", "stmt:continue", "stmt:if-else", "stmt:return-atom", "stmt:return-safepoint",
@@ -172,14 +218,18 @@ def run(ctx):
     stats = {"foreign": 0}
     total, distinct, tied = 0, set(), 0
     corpus = sorted(glob.glob(os.path.join(vlib.VERIF, "corpus", "C13", "*.sx")))
+    fill_replay = None
     if ctx.replay_file:
         import json
         rp = json.load(open(ctx.replay_file)).get("replay", {})
+        if "fill" in rp:
+            fill_replay, corpus, sessions = rp["fill"], [], 0
         if "skeleton" in rp:
             p = os.path.join(vlib.CACHE, "c13_replay.sx")
             open(p, "w").write(rp["skeleton"] + "\n")
             corpus, sessions = [p], 0
     dist = {"generated": 0, "corpus": 0}
+    fstats, fill_total = {}, 0
     feat = {k: 0 for k in FEATURES}
     for prof in profiles:
         ok, paths, log = vlib.harness_build(["hx_nogc"], profile=prof)
@@ -200,6 +250,33 @@ def run(ctx):
                 ctx.violation("hx_nogc-crash", "harness crashed (abort inside the VM?)", {"profile": prof, "output_tail": out[-2000:]})
                 return
             outs.append(out)
+        # heap-filling regions under a small configured limit (strings, vec growth, arrays; the region as a @no_gc function, a
+        # lambda in one, a plain callee of one, a region opened by the host, one region per iteration) + the same loop outside any region
+        fcorpus = [l.strip() for f in sorted(glob.glob(os.path.join(vlib.VERIF, "corpus", "C13", "*.cases"))) for l in open(f) if l.strip() and not l.startswith("#")]
+        fouts = []
+        if fill_replay:
+            fcorpus = [fill_replay]
+        if fcorpus and (fill_replay or not ctx.replay_file):
+            rc, out = vlib.sh([paths["hx_nogc"], "--fill-cases", ",".join(fcorpus)], timeout=600)
+            if rc != 0:
+                ctx.violation("hx_nogc-crash", "harness crashed on a heap-filling program", {"profile": prof, "fill_cases": fcorpus, "output_tail": out[-2000:]})
+                return
+            fouts.append(out)
+        if sessions:
+            rc, out = vlib.sh([paths["hx_nogc"], "--fill", "--seed", str(ctx.seed), "--random", "150" if ctx.tier == "quick" else "3000",
+                               "--opts", "0,2" if ctx.tier == "quick" else "0,1,2,3"] + ([] if ctx.tier == "quick" else ["--limits", "1048576,2097152,4194304"]), timeout=1500)
+            if rc != 0:
+                ctx.violation("hx_nogc-crash", "harness crashed on a heap-filling program", {"profile": prof, "output_tail": out[-2000:]})
+                return
+            fouts.append(out)
+        frows = [r for o in fouts for r in parse_fill(o)]
+        for r in frows:
+            if "bad" in r:
+                ctx.broken.append("hx_nogc --fill: " + r["bad"][:200])
+        frows = [r for r in frows if "bad" not in r]
+        for r in frows:
+            fill_oracle(ctx, r, fstats)
+            fill_total += 1
         rows = [r for o in outs for r in parse_lines(o)]
         for r in rows:
             if "bad" in r:
@@ -219,7 +296,13 @@ def run(ctx):
     starved = [k for k, v in feat.items() if v < (5 if ctx.tier == "quick" else 50) and not k.startswith("outcome:")]
     if starved and sessions:
         ctx.broken.append("generator audit C13: starved feature classes " + ", ".join(starved))
-    ctx.cov["evaluations"] = total
+    ctx.cov["heap_filling_regions"] = {"runs": fill_total, "outcomes": fstats}
+    if sessions:
+        fneed = {"fill:OutOfMemory:region": 40, "fill:ok:region": 20, "fill:ok:control": 4, "fill:oom-after-region-safepoints": 40}
+        fstarved = [k for k, v in fneed.items() if fstats.get(k, 0) < v]
+        if fstarved:
+            ctx.broken.append("generator audit C13: starved heap-filling classes " + ", ".join(fstarved))
+    ctx.cov["evaluations"] = total + fill_total
     ctx.cov["distinct_nontrivial"] = len(distinct)
     ctx.cov["model_evaluations"] = tied
     ctx.cov["foreign_failures"] = stats
@@ -234,5 +317,7 @@ def run(ctx):
     })
     ctx.cov["rule"] = ("per run: counters of the GC hook with a collection forced at every safepoint; collections at depth>0 = 0; "
                        "safepoints at depth>0 = safepoints inside a source-level @no_gc region (harness interpreter) when the run starts at depth 0; "
+                       "heap-filling regions under max_heap_bytes 1/2 MiB (gc modes: VM decides / never / every k-th / random): collections at depth>0 = 0 (the hook sits in VM::collect itself), "
+                       "depth restored after the OutOfMemory, a region that allocates >= 2 x the limit does not complete; "
                        "vm.no_gc_depth() after = before; model (Coq, vm_compute) = observation on [class, depth after, safepoints, at depth>0, "
                        "collections, 0, in-region count]; distinct = distinct (skeleton, opt, entry depth) with a region safepoint or an error")
